@@ -1,9 +1,9 @@
 import CnvVerif.Driver.Json
-import CnvVerif.Driver.Formats
+import CnvVerif.Driver.Haar
 open Lean CnvVerif.Drv
 
 def handlers : List (String → Json → Option Json → R (Option Json)) :=
-  [handleFormats]
+  [CnvVerif.Drv.Haar.handleHaar]
 
 def dispatch (op : String) (inp : Json) (impl : Option Json) : R Json := do
   for h in handlers do
